@@ -91,6 +91,9 @@ func runLookupInBubble(t *testing.T, sc *Scenario, ch sim.Chooser) []sim.Ev {
 	go func() {
 		defer close(levDone)
 		for ev := range lev {
+			if sc.SlowEv && !e.fastCons {
+				_, _ = e.gate.Park(nil, "consume", "events", nil)
+			}
 			switch {
 			case ev.Request != nil:
 				tr.AddBuf(0, "", "Req", "cause", e.kadRank(ev.Request.Cause), "p", firstRank(e, ev.Request.Waiting), "ts", e.now())
@@ -214,7 +217,12 @@ func runLookupInBubble(t *testing.T, sc *Scenario, ch sim.Chooser) []sim.Ev {
 		tr.Add("Closed", "ok", false, "ts", e.now())
 	}
 	// drain whatever Close left parked (none expected)
+	e.fastCons = true
 	for _, it := range e.gate.Pending() {
+		if it.Kind == "consume" {
+			e.gate.Release(it, nil)
+			continue
+		}
 		e.gate.Release(it, failOutcome(it))
 	}
 	regCancel()
